@@ -64,7 +64,14 @@ MExprs == {PM("==", VInt(1)), PM("!=", VStr("a")), PM(">", VInt(0)), PM("<=", VI
            PM("<", VStr("b")), PMTruthy}
 Lits == {PLit(VInt(1)), PLit(VStr("a")), PLit(VNone), PLit(VBool(TRUE))}
 Types == {PType(t) : t \in {"int", "str", "bool", "object", "list", "dict", "tuple", "set", "NoneType"}}
-Leaves == Lits \cup Types \cup Regexes \cup Preds \cup MExprs
+\* Regex(pattern, flags=re.IGNORECASE): 'A' matches lower-case strings only with the flag
+RegexFlags == {PRegexF("rA", f, fl) : f \in {"fullmatch", "search"}, fl \in {"", "I"}} \cup {PRegexF("ra", "match", "I")}
+\* constant op M: Python reflects the comparison onto M  (0 < M  is  M > 0)
+Reflected == {PMR("<", VInt(0)), PMR("==", VInt(1)), PMR(">=", VStr("a")), PMR("!=", VNone)}
+\* Match nested inside a Match pattern, with and without its own default
+NM0 == PMatch(PType("int"), TRUE, VInt(0))
+NM == {NM0, PMatch(PType("int"), FALSE, VNone), PMatch(PLit(VStr("a")), TRUE, VNone)}
+Leaves == Lits \cup Types \cup Regexes \cup RegexFlags \cup Preds \cup MExprs \cup Reflected \cup NM
 
 \* the small leaf alphabet used inside composite patterns
 LsSeq == IF Wide THEN <<PLit(VInt(1)), PLit(VStr("a")), PType("int"), PType("str"), PType("object"),
@@ -127,7 +134,17 @@ EqMix == {PList(<<PType("bool")>>), PList(<<NotBool>>), PList(<<PType("bool"), P
 EqAtoms == {VInt(0), VInt(1), VBool(TRUE), VBool(FALSE)}
 EqLists == {VC("list", s) : s \in [1..2 -> EqAtoms] \cup [1..3 -> EqAtoms]}
 
-P1 == Bools(Ls) \cup AndDefaults \cup EqMix \cup {PNot(c, "ctor") : c \in Leaves} \cup Seqs(Ls) \cup Sets1 \cup
+NestedMatch ==
+  UNION {{PList(<<m>>), PList(<<m, PType("str")>>), PTuple(<<m, PType("int")>>), PDict(<< <<PLit(VStr("a")), m>> >>),
+          PDict(<< <<POptional(VStr("a"), TRUE, VInt(5)), m>> >>), PDict(<< <<PType("str"), m>>, <<PType("object"), PType("object")>> >>),
+          POr(<<m, PLit(VStr("a"))>>, "ctor", FALSE, VNone), PAnd(<<m, PM(">", VInt(0))>>, "ctor", FALSE, VNone),
+          PAnd(<<PM(">", VInt(0)), m>>, "ctor", FALSE, VNone)} : m \in NM} \cup
+  {PDict(<< <<PMatch(PType("str"), FALSE, VNone), PType("int")>> >>),                     \* a Match as key pattern
+   PDict(<< <<PRequired(PMatch(PType("str"), FALSE, VNone)), PType("int")>> >>),
+   PSet(<<PMatch(PType("int"), FALSE, VNone)>>),
+   PList(<<PMatch(PList(<<PType("int")>>), TRUE, VC("list", <<>>))>>)}
+
+P1 == Bools(Ls) \cup AndDefaults \cup EqMix \cup NestedMatch \cup {PNot(c, "ctor") : c \in Leaves} \cup Seqs(Ls) \cup Sets1 \cup
       {p \in DictPats(KeysP, Ls, KeysPP, ValsP) : DistinctKeys(p)}
 
 \* a selection of depth-1 patterns used as children at depth 2
@@ -211,7 +228,9 @@ Decides == Case => LawDecides("auto", target, PMatch(pattern, FALSE, VNone), O)
 Result == Case => LawResult("auto", target, PMatch(pattern, FALSE, VNone), O)
 \* ... in particular nothing of the target is lost or altered, and without Optional defaults
 \* in the pattern the result equals the target
-Unchanged == Case /\ O.ok /\ Clean(O) => Extends(O.v, target) /\ (~HasOptDefault(pattern) => PyEq(O.v, target))
+\* (a nested Match / And / Or with a default of its own may replace a part of the target)
+Unchanged == Case /\ O.ok /\ Clean(O) /\ ~HasNodeDefault(pattern)
+               => Extends(O.v, target) /\ (~HasOptDefault(pattern) => PyEq(O.v, target))
 \* otherwise a MatchError; a TypeMatchError only where a type rule exists, and always when
 \* the failing rule is the type rule at the root
 ErrClass == Case => /\ LawErrs(O)
@@ -220,6 +239,9 @@ ErrClass == Case => /\ LawErrs(O)
                     /\ (pattern.op \in {"list", "set", "frozenset", "tuple", "dict"} /\ ~PyIsInstance(target, pattern.op)
                           => O.errs = {"TypeMatchError"})
                     /\ (pattern.op \in {"lit", "regex", "pred", "not", "mtruthy"} /\ ~O.ok /\ Clean(O) => O.errs = {"MatchError"})
+                    \* a comparison Python refuses is not a rejection: the TypeError itself comes out
+                    /\ (pattern.op = "m" /\ (IF pattern.refl THEN PyCmp(pattern.cmp, pattern.rhs, target)
+                                              ELSE PyCmp(pattern.cmp, target, pattern.rhs)) = "E" => O.errs = {"TypeError"})
 \* Match(default=) returns the default instead of a GlomError, and changes nothing else
 Default == Case => /\ (O.ok => OD = O)
                    /\ (Caught(O) => OD.ok /\ OD.v = DefaultValue)
